@@ -610,8 +610,18 @@ fn parse_expr_unaryop(
                         base_location,
                     ));
                 }
+                let is_enum = matches!(
+                    context.module.type_registry.get_type_layer(tyl),
+                    ir::TypeLayer::Enum(_)
+                );
                 match context.module.type_registry.extract_scalar(tyl) {
                     Some(ir::ScalarType::Bool) => Err(TyperError::UnaryOperationWrongTypes(
+                        op.clone(),
+                        ErrorType::Unknown,
+                        base_location,
+                    )),
+                    // Only numeric (and enum) values can be incremented
+                    None if !is_enum => Err(TyperError::UnaryOperationWrongTypes(
                         op.clone(),
                         ErrorType::Unknown,
                         base_location,
@@ -1083,6 +1093,29 @@ fn parse_expr_binop(
                 ir::ValueType::Lvalue => ExpressionType(lhs_type.0, ir::ValueType::Rvalue),
                 _ => return Err(TyperError::LvalueRequired(lhs.get_location())),
             };
+            // Compound assignments apply an arithmetic / bitwise operator so need the same operand classes
+            if *op != ast::BinOp::Assignment {
+                let lhs_base = context.module.type_registry.remove_modifier(lhs_type.0);
+                let lhs_nv_id = context.module.type_registry.get_non_vector_id(lhs_base);
+                let require_integer = matches!(
+                    op,
+                    ast::BinOp::LeftShiftAssignment
+                        | ast::BinOp::RightShiftAssignment
+                        | ast::BinOp::BitwiseAndAssignment
+                        | ast::BinOp::BitwiseOrAssignment
+                        | ast::BinOp::BitwiseXorAssignment
+                );
+                if require_integer {
+                    if !is_integer_or_bool_or_enum(lhs_nv_id, context) {
+                        return Err(TyperError::IntegerTypeExpected(lhs.location));
+                    }
+                } else if !matches!(
+                    context.module.type_registry.get_type_layer(lhs_nv_id),
+                    ir::TypeLayer::Scalar(_) | ir::TypeLayer::Enum(_)
+                ) {
+                    return Err(TyperError::NumericTypeExpected(lhs.location));
+                }
+            }
             match ImplicitConversion::find(rhs_type, required_rtype, &mut context.module) {
                 Ok(rhs_cast) => {
                     let rhs_final = rhs_cast.apply(rhs_ir, &mut context.module);
